@@ -741,18 +741,78 @@ def rule_typedef_path(ctx, rep: Report, rid="N2", min_kinds=3):
     for st in branch.body:
         if isinstance(st, ast.Assign) and isinstance(st.value, ast.Name) and st.value.id in aliases:
             aliases.add(st.targets[0].id)
-    lookups = [c for st in branch.body for c in ast.walk(st) if isinstance(c, ast.Call)
-               and isinstance(c.func, ast.Attribute) and c.func.attr == "find_class_or_function"]
-    ok = len(lookups) == 1 and any(unparse(lookups[0].args[0]) == f"{a}.typename" for a in aliases) if lookups else False
-    top_ok = False
-    if lookups:
-        recv = lookups[0].func.value
-        from .prog import inline_locals
-        top_ok = unparse(inline_locals(fn, recv)).endswith(".top_level()")
-    rep.add(rid, "typedef:target resolved from the module's top level by the typedef's typename", ok and top_ok,
+    from .prog import inline_locals
+
+    def is_lookup(fn_, call, tnames) -> bool:
+        """<ns>.top_level().find_class_or_function(<typedef>.typename)"""
+        return isinstance(call, ast.Call) and isinstance(call.func, ast.Attribute) and call.func.attr == "find_class_or_function" \
+            and len(call.args) == 1 and any(unparse(call.args[0]) == f"{a}.typename" for a in tnames) \
+            and unparse(inline_locals(fn_, call.func.value)).endswith(".top_level()")
+
+    loop = next((l for l in fn.body if isinstance(l, ast.For) and any(x is branch for x in ast.walk(l))), None)
+    if loop is None:
+        raise AnalysisError("instantiate_namespace: the loop over the namespace content was not found")
+    recursive = [c for c in ast.walk(loop) if isinstance(c, ast.Call) and unparse(c.func) == fn.name]
+    inline_lookups = [c for st in branch.body for c in ast.walk(st) if isinstance(c, ast.Call)
+                      and isinstance(c.func, ast.Attribute) and c.func.attr == "find_class_or_function"]
+    table_reads = [st for st in branch.body if isinstance(st, ast.Assign) and isinstance(st.value, ast.Subscript)]
+    lookup_ok, early_ok, detail = False, False, ""
+    accepted_defs: List[ast.AST] = []
+    if inline_lookups:
+        lookup_ok = len(inline_lookups) == 1 and is_lookup(fn, inline_lookups[0], aliases)
+        accepted_defs = [parent(c) for c in inline_lookups if isinstance(parent(c), ast.Assign)]
+        early_ok = not recursive
+        detail = ("the lookup runs inside the loop that also replaces the content of nested namespaces "
+                  f"({unparse(recursive[0])[:50]}): a typedef placed after `namespace a {{ template<T> class Foo{{}}; }}` looks for "
+                  "a::Foo when namespace a no longer contains it and the valid module is rejected ('Cannot find class')") if recursive else ""
+    elif table_reads:
+        rd = table_reads[0]
+        tbl, key = rd.value.value, rd.value.slice
+        key_ok = any(unparse(key) in (f"id({a})", a) for a in aliases)
+        tparam = tbl.id if isinstance(tbl, ast.Name) and tbl.id in func_params(fn) else None
+        # the table is built by a resolver before the loop, unless the caller handed it in
+        inits = [st for st in fn.body if isinstance(st, ast.If) and tparam and unparse(st.test) == f"{tparam} is None"
+                 and len(st.body) == 1 and isinstance(st.body[0], ast.Assign) and unparse(st.body[0].targets[0]) == tparam
+                 and isinstance(st.body[0].value, ast.Call)]
+        resolver = None
+        if len(inits) == 1 and fn.body.index(inits[0]) < fn.body.index(loop):
+            rname = unparse(inits[0].body[0].value.func)
+            resolver = mi.functions.get(rname)
+            passed = all(any(unparse(a) == tparam for a in list(c.args) + [k.value for k in c.keywords]) for c in recursive)
+        if resolver is None:
+            detail = "the table of typedef targets is not built by a resolver function before the content loop"
+        else:
+            rp = func_params(resolver)
+            rloops = [l for l in resolver.body if isinstance(l, ast.For)]
+            stores = [x for x in ast.walk(resolver) if isinstance(x, ast.Subscript) and isinstance(x.ctx, ast.Store)]
+            good_store = False
+            for x in stores:
+                l = enclosing(x, ast.For)
+                if l is None or not isinstance(l.target, ast.Name):
+                    continue
+                ev = l.target.id
+                g = [t for t, pol in guards_of(x, resolver, include_exits=False) if pol]
+                val = parent(x).value if isinstance(parent(x), ast.Assign) else None
+                if unparse(x.slice) in (f"id({ev})", ev) and any("TypedefTemplateInstantiation" in t and ev in t for t in g) \
+                        and len(g) == 1 and is_lookup(resolver, val, {ev}) and unparse(l.iter) == f"{rp[0]}.content":
+                    good_store = True
+            rec = [c for c in ast.walk(resolver) if isinstance(c, ast.Call) and unparse(c.func) == resolver.name]
+            rec_ok = bool(rec) and all(
+                [t for t, pol in guards_of(c, resolver, include_exits=False) if pol] and
+                all("Namespace" in t for t, pol in guards_of(c, resolver, include_exits=False) if pol) and
+                len([t for t, pol in guards_of(c, resolver, include_exits=True)]) <= 2 for c in rec)
+            pure = not any(isinstance(x, ast.Attribute) and isinstance(x.ctx, ast.Store) for x in ast.walk(resolver)) and \
+                not any(isinstance(c, ast.Call) and unparse(c.func) == fn.name for c in ast.walk(resolver))
+            lookup_ok = key_ok and good_store and rec_ok
+            early_ok = pure and passed
+            accepted_defs = [rd]
+            detail = f"resolver {resolver.name}: keyed by the typedef {key_ok}, stores the module-wide lookup for every typedef {good_store}, " \
+                     f"descends into every nested namespace {rec_ok}, replaces nothing {pure}, table handed to nested calls {passed}"
+    rep.add(rid, "typedef:target resolved from the module's top level by the typedef's typename", lookup_ok,
             "the typedef'd template must be looked up with top_level().find_class_or_function(<typedef>.typename) so "
-            "that typedefs placed before/after the template and at any namespace depth resolve",
-            f"{mi.rel}:{branch.lineno}")
+            "that typedefs at any namespace depth resolve; " + detail, f"{mi.rel}:{branch.lineno}")
+    rep.add(rid, "typedef:target resolved before any namespace content is replaced (typedef before or after the template)", early_ok and lookup_ok,
+            detail or "lookup not recognised", f"{mi.rel}:{branch.lineno}")
     n = 0
     for st in branch.body:
         for c in ast.walk(st):
@@ -770,9 +830,7 @@ def rule_typedef_path(ctx, rep: Report, rid="N2", min_kinds=3):
                     defs, killed = reaching_defs(fn, orig.id, orig)
                     vals = [d.value for d in defs if isinstance(d, ast.Assign)]
                     vals = [v for v in vals if not (isinstance(v, ast.Constant) and v.value is None)]
-                    only_lookup = bool(vals) and all(
-                        isinstance(v, ast.Call) and isinstance(v.func, ast.Attribute) and v.func.attr == "find_class_or_function"
-                        for v in vals) and all(isinstance(d, ast.Assign) for d in defs)
+                    only_lookup = bool(vals) and all(isinstance(d, ast.Assign) for d in defs) and all(d in accepted_defs for d in defs)
                 rep.add(rid, f"typedef:{rc.qual}:template taken from the module-wide lookup only", only_lookup,
                         f"`{unparse(orig) if orig is not None else None}` can also come from somewhere other than "
                         f"top_level().find_class_or_function(<typedef>.typename): a typedef may bind to a different "
